@@ -1706,3 +1706,22 @@ M("C09-benign-comment-scanner-flag-form", "C09", "src/cppparser/cppPreprocessor.
   "      if (c == '*') {\n        c = get();\n        if (c == '/') {\n          return get();\n        }\n      } else {\n        c = get();\n      }",
   "      bool star = (c == '*');\n      c = get();\n      if (star && c == '/') {\n        return get();\n      }",
   benign=True)
+
+# ---------------------------------------------------------------- R11.10 (seed S7-C11)
+M("C11-update-type-before-zero-test", "C11", "src/interrogate/interrogateBuilder.cxx",
+  "      index = (*tni).second;\n      if (index == 0) {\n        // This is an invalid type; we don't know anything about it.\n        return 0;\n      }\n\n      InterrogateType &itype = InterrogateDatabase::get_ptr()->update_type(index);\n      if (global) {\n        itype._flags |= InterrogateType::F_global;\n      }\n\n      if ((itype._flags & InterrogateType::F_fully_defined) != 0) {",
+  "      index = (*tni).second;\n      InterrogateType &itype = InterrogateDatabase::get_ptr()->update_type(index);\n      if (global) {\n        itype._flags |= InterrogateType::F_global;\n      }\n\n      if (index == 0 || (itype._flags & InterrogateType::F_fully_defined) != 0) {",
+  expect="R11.10|InterrogateBuilder::get_type|update_type(index)|not-zero")
+M("C11-benign-zero-test-not-form", "C11", "src/interrogate/interrogateBuilder.cxx",
+  "      index = (*tni).second;\n      if (index == 0) {\n        // This is an invalid type; we don't know anything about it.\n        return 0;\n      }\n",
+  "      index = (*tni).second;\n      if (!(index != 0)) {\n        // This is an invalid type; we don't know anything about it.\n        return 0;\n      }\n",
+  benign=True)
+
+# ---------------------------------------------------------------- R12.10 (seed S7-C12)
+M("C12-element-flags-regrouped", "C12", "src/interrogatedb/interrogateElement.h",
+  "    F_sequence        = 0x0040,\n    F_mapping         = 0x0080,\n    F_has_insert_function= 0x0100,\n    F_has_getkey_function= 0x0200,",
+  "    F_has_insert_function= 0x0040,\n    F_has_getkey_function= 0x0080,\n    F_sequence        = 0x0100,\n    F_mapping         = 0x0200,",
+  expect="R12.10|InterrogateElement::Flags::F_sequence|value")
+M("C12-benign-new-element-flag", "C12", "src/interrogatedb/interrogateElement.h",
+  "    F_has_getkey_function= 0x0200,", "    F_has_getkey_function= 0x0200,\n    F_reserved_for_later = 0x0400,",
+  benign=True)
